@@ -235,6 +235,13 @@ class Table(Vector):
 		# Build column map
 		self._column_map = self._build_column_map()
 
+	def fingerprint(self) -> int:
+		# Columns are written through live views (t.a[0] = 1) that cannot notify
+		# the table, so the table-level memo is never trusted: recombine the
+		# columns' own (cached, write-invalidated) fingerprints on every call.
+		self._fp = None
+		return super().fingerprint()
+
 	def __len__(self):
 		if len(self._underlying) == 0:
 			return 0
